@@ -48,7 +48,7 @@ func c13Pinning(c *evid.Ctx) {
 	}
 	for r := 0; r < reps; r++ {
 		for _, kind := range []string{"head", "tail", "all"} {
-			for _, point := range []string{"", "GetLog.acquired", "readFrame.beforeRead", "offsetForFrame.checked"} {
+			for _, point := range []string{"", "acquireState.loaded", "GetLog.acquired", "readFrame.beforeRead", "offsetForFrame.checked"} {
 				rng := rand.New(rand.NewSource(c.Seed*31 + int64(r)*7 + int64(len(kind)+len(point))))
 				disk := simfs.New(simfs.Strict)
 				w, err := drv.OpenSim(disk, drv.Cfg{SegSize: 300})
@@ -100,7 +100,32 @@ func c13Pinning(c *evid.Ctx) {
 						continue
 					}
 				}
-				err = w.DeleteRange(min, max)
+				if point == "acquireState.loaded" && park != nil {
+					// the reader has loaded the old state but holds no reference yet. Let the
+					// truncation publish the new state and stop before it drops its own reference on
+					// the old one; the reader then takes its reference, notices the state was replaced
+					// and retries - it must give that reference back.
+					wp := ctl.ParkAt("writer", "mutate.afterStore", 0)
+					werr := make(chan error, 1)
+					go func() {
+						ctl.Tag("writer")
+						werr <- w.DeleteRange(min, max)
+					}()
+					if wp.WaitReached(10 * time.Second) {
+						park.Release()
+						select {
+						case <-done:
+						case <-time.After(60 * time.Second):
+							c.Violation("C13:pinned-reader-stuck", "reader did not return after release", map[string]any{"kind": kind, "reader_parked_at": point})
+						}
+						park = nil
+						c.Count("reader_retry_interleavings", 1)
+					}
+					wp.Release()
+					err = <-werr
+				} else {
+					err = w.DeleteRange(min, max)
+				}
 				hooks.WaitRotation(w, drv.Watchdog)
 				replay := map[string]any{"kind": kind, "reader_parked_at": point, "range": []uint64{min, max}}
 				if err != nil {
